@@ -467,7 +467,7 @@ func cmdCheck(args []string) int {
 		fmt.Printf("INCONCLUSIVE property=%s: %s\n", id, p)
 	}
 	wall := time.Since(t0).Seconds()
-	writeEvidence(vdir, id, tier, seed, results, map[string][]string{"funcs": murexFuncs(funcs), "stubs": sortedKeys(stubs)}, &spec, violations, wall, problems, replays+vectors)
+	writeEvidence(vdir, id, tier, seed, results, map[string][]string{"funcs": murexFuncs(funcs), "stubs": sortedKeys(stubs), "known": sortedBoolKeys(knownSeen)}, &spec, violations, wall, problems, replays+vectors)
 	_ = loadS
 	if exit == 0 {
 		fmt.Printf("OK property=%s tier=%s (%.1fs)\n", id, tier, wall)
@@ -792,6 +792,9 @@ func writeEvidence(vdir, id, tier string, seed int, results []*harnessResult, li
 	if lists != nil {
 		cov["functions_encoded"] = lists["funcs"]
 		cov["stubs"] = lists["stubs"]
+		if k, ok := lists["known"]; ok {
+			cov["known_findings_observed"] = k
+		}
 	}
 	if spec != nil {
 		cov["outside_the_claim"] = spec.Outside
@@ -826,3 +829,14 @@ func outDir(vdir string) string {
 }
 
 func cmdSelftest(args []string) int { return runSelftest() }
+
+func sortedBoolKeys(m map[string]bool) []string {
+	res := []string{}
+	for k, v := range m {
+		if v {
+			res = append(res, k)
+		}
+	}
+	sort.Strings(res)
+	return res
+}
